@@ -472,7 +472,7 @@ func runVisibility(r *evid.Run) {
 		}
 	}
 	defer func() { vp.Hook = nil }()
-	for _, variant := range []string{"txn-alone", "put-then-txn-in-one-call", "txn-with-delete-and-put"} {
+	for _, variant := range []string{"txn-alone", "put-then-txn-in-one-call", "txn-with-delete-and-put", "txn-alone/reader=readonly-txn-without-predicates", "txn-alone/reader=readonly-txn-with-predicate"} {
 		var inst *fsmx.Inst
 		var reads []string
 		var updErr string
@@ -491,7 +491,7 @@ func runVisibility(r *evid.Run) {
 			_, _ = inst.Update([]sm.Entry{fsmx.Entry(1, PutBatch("k", "old", "z", "old"))})
 			reads, updErr = nil, ""
 			var ents []sm.Entry
-			switch variant {
+			switch strings.SplitN(variant, "/", 2)[0] {
 			case "txn-alone":
 				ents = []sm.Entry{fsmx.Entry(2, Txn(nil, Ops(OpPut("x", "1", false), OpPut("y", "1", false)), nil))}
 				pre, post = `["k"="old" "z"="old"]`, `["k"="old" "x"="1" "y"="1" "z"="old"]`
@@ -512,6 +512,29 @@ func runVisibility(r *evid.Run) {
 					}
 				},
 				func(t *sched.T) {
+					if strings.Contains(variant, "reader=readonly-txn") {
+						// one read-only transaction with two reads: both must be answered from ONE state
+						req := &regattapb.TxnRequest{Table: Table, Success: Ops(OpGet("x", nil, 0, false, false), OpGet("y", nil, 0, false, false)), Failure: Ops(OpGet("x", nil, 0, false, false), OpGet("y", nil, 0, false, false))}
+						if strings.HasSuffix(variant, "with-predicate") {
+							req.Compare = Cmps(Exists("k", nil))
+						}
+						res, err := inst.F.Lookup(req)
+						if err != nil {
+							reads = append(reads, "error: "+err.Error())
+							return
+						}
+						rs := res.(*regattapb.TxnResponse).Responses
+						x, y := len(rs[0].GetResponseRange().GetKvs()), len(rs[1].GetResponseRange().GetKvs())
+						switch {
+						case x == 0 && y == 0:
+							reads = append(reads, pre)
+						case x == 1 && y == 1:
+							reads = append(reads, post)
+						default:
+							reads = append(reads, fmt.Sprintf("x present=%d y present=%d within one read-only transaction", x, y))
+						}
+						return
+					}
 					for i := 0; i < 2; i++ {
 						res, err := inst.F.Lookup(&regattapb.RequestOp_Range{Key: wild, RangeEnd: wild})
 						if err != nil {
